@@ -199,6 +199,29 @@ def check_decode(cx: Ctx, wire: bytes, kind_hint=None, desc=None, replay=None):
         return
     if again != wire:
         cx.witness(f"e2e.{kind}.reencode.mismatch", {**desc, "got": again[:96].hex()}, replay)
+    if kind == "grouped":
+        # two decodes of the same bytes are two objects: the members of this one are overwritten through their public
+        # attributes (what a relay does before passing a message on), then the same bytes are decoded once more
+        try:
+            def scribble(avp, depth=0):
+                for k in avp.value:
+                    if hasattr(k, "_avps") and depth < 6:
+                        scribble(k, depth + 1)
+                    k.payload = b"\x00\x00\x00\x2a"
+                    k.is_mandatory = not k.is_mandatory
+            scribble(d)
+        except Exception:
+            return
+        n0 = len(cx.wit)
+        try:
+            d2 = Avp.from_bytes(wire)
+        except Exception as e:
+            cx.witness("e2e.grouped.decode.raised_on_second_decode", {**desc, "exc": repr(e)[:200]}, replay)
+            return
+        compare_tree(cx, d2, ref, desc, replay, depth=0)
+        for w in cx.wit[n0:]:
+            w["key"] = "e2e.grouped.decode.second_decode_shares_members_with_first"
+        cx.matrix["second_decodes_after_overwriting_members"] = cx.matrix.get("second_decodes_after_overwriting_members", 0) + 1
 
 
 def compare_tree(cx, d, ref: R.RAvp, desc, replay, depth):
